@@ -3,8 +3,10 @@
 # Runs in a scratch copy of /verif (so that concurrently running checks on /repo are not disturbed); the
 # documented equivalent is: git -C /repo apply <diff>; ./check <PROP>; git -C /repo checkout -- .
 WT=$1; shift
+MUT=${MUT:-/tmp/verif-mut}
 set -u
 cd $WT || exit 2
+if [ -z "${RECHECK:-}" ]; then
 git diff -- zepid > change.diff
 echo "== demo WITH change";  PYTHONPATH=$WT timeout 300 /venv/bin/python demo.py > /tmp/demo_with.log 2>&1; echo "exit=$?"; tail -2 /tmp/demo_with.log | cut -c1-300
 git stash -q -- zepid
@@ -25,9 +27,10 @@ for l in open('/tmp/pytest_mut.log'):
 missing=base-passed
 print('stable_pass still passing: %d/%d'%(len(base)-len(missing),len(base)), sorted(missing)[:5])
 PY
-mkdir -p /tmp/verif-mut
-rsync -a --delete --exclude 'run/' --exclude '.git' --exclude 'replays/' /verif/ /tmp/verif-mut/
-cd /tmp/verif-mut
+fi
+mkdir -p $MUT
+rsync -a --delete --exclude 'run/' --exclude '.git' --exclude 'replays/' /verif/ $MUT/
+cd $MUT
 for P in "$@"; do
   echo "== ./check $P against the changed tree"
   ZEPID_REPO=$WT timeout 3000 ./check $P 2>&1 | grep -v "^KNOWN" | tail -6 | cut -c1-600
